@@ -209,6 +209,24 @@ fn gen_comment_file(lang: &str, rng: &mut Rng, eol: &str) -> GenFile {
                 g.construct("ignore-marked-comment");
                 last_was_comment = false;
             }
+            8 if lang == "go" => {
+                // a `//go:` directive opens a comment group whose other lines are prose
+                if last_was_comment {
+                    stmt(&mut g, rng, &mut n_stmt);
+                }
+                let ind = indent(rng);
+                g.raw(ind);
+                g.seg(Role::NonProse, "go-directive", *rng.pick(&["//go:generate zxqv h\u{00E9}llo", "//go:build qwrtz", "//go:noinline", "//go:embed w\u{00F6}rld.txt"]));
+                g.raw(eol);
+                for _ in 0..rng.range(1, 2) {
+                    g.raw(ind);
+                    g.raw("// ");
+                    g.prose(rng, "line-comment-after-directive", 2, 6, (1, 2));
+                    g.raw(eol);
+                }
+                g.construct("go-directive");
+                last_was_comment = true;
+            }
             7 if lang == "python" => {
                 let st = g.n;
                 g.raw("def f():");
